@@ -24,19 +24,120 @@ import (
 )
 
 type c20Scenario struct {
-	Idx  int      `json:"idx"`
-	Part string   `json:"part"` // run-option | deploy-validation | exit-code | list
-	Opt  string   `json:"option,omitempty"`
-	Flag string   `json:"flag,omitempty"`     // absent | valid | (bool) false
-	Pref string   `json:"prefixed,omitempty"` // absent | valid | malformed
-	Bare string   `json:"bare,omitempty"`
-	Args []string `json:"args,omitempty"`
-	Case string   `json:"case,omitempty"`
+	Idx  int    `json:"idx"`
+	Part string `json:"part"` // run-option | run-option-spelling | deploy-validation | exit-code | list
+	Opt  string `json:"option,omitempty"`
+	Flag string `json:"flag,omitempty"`     // absent | valid | (bool) false
+	Pref string `json:"prefixed,omitempty"` // absent | valid | malformed
+	Bare string `json:"bare,omitempty"`
+	// how the value of the prefixed / bare variable is written ("" = the plain form: decimal port, true/1, 80a/maybe)
+	PrefSpell string   `json:"prefixed_spelling,omitempty"`
+	BareSpell string   `json:"bare_spelling,omitempty"`
+	Args      []string `json:"args,omitempty"`
+	Case      string   `json:"case,omitempty"`
 }
 
 // options of `deploy` that take no part in its validation
 var c20Bystanders = [][]string{nil, {"--forward-headers"}, {"--forward-headers=false"}, {"--strip-path-prefix=false"}, {"--tls-redirect=false"}, {"--health-check-path", "/health"},
 	{"--target-timeout", "10s"}, {"--deploy-timeout", "5s", "--drain-timeout", "5s"}, {"--buffer-memory", "4096"}, {"--log-request-header", "X-A", "--log-response-header", "X-B"}, {"--tls-staging"}}
+
+// A spelling is one way of writing the value of an environment variable of a run option.
+// Kind says what the statement makes of it: "valid" (an integer in decimal notation / a boolean
+// that is true), "valid-false" (a boolean that is false) or "malformed" (neither: the option falls
+// back to its default).
+type c20Spell struct{ Name, Kind string }
+
+// integer options: decimal notation is an optional sign and decimal digits, leading zeros included;
+// anything else (other bases, digit separators, fractions, exponents, words, values no int holds) is malformed
+var c20IntSpells = []c20Spell{
+	{"leading-zero", "valid"}, {"leading-zeros", "valid"}, {"plus-sign", "valid"}, {"plus-leading-zero", "valid"},
+	{"hex", "malformed"}, {"hex-upper", "malformed"}, {"octal-o", "malformed"}, {"binary", "malformed"}, {"underscore", "malformed"},
+	{"exponent", "malformed"}, {"decimal-point", "malformed"}, {"out-of-range", "malformed"}, {"word", "malformed"}, {"double-sign", "malformed"},
+}
+
+// the boolean option
+var c20BoolSpells = []c20Spell{
+	{"TRUE", "valid"}, {"True", "valid"}, {"t", "valid"}, {"T", "valid"}, {"1", "valid"}, {"true", "valid"},
+	{"false", "valid-false"}, {"FALSE", "valid-false"}, {"False", "valid-false"}, {"f", "valid-false"}, {"F", "valid-false"}, {"0", "valid-false"},
+	{"2", "malformed"}, {"truee", "malformed"}, {"-1", "malformed"},
+}
+
+// c20SpellInt writes port p in the named spelling. The malformed ones are derived from p as well, so
+// that a parser that is too lenient ends up on a port that can be bound and told from the default.
+func c20SpellInt(name string, p int) string {
+	d := fmt.Sprint(p)
+	switch name {
+	case "leading-zero":
+		return "0" + d
+	case "leading-zeros":
+		return "000" + d
+	case "plus-sign":
+		return "+" + d
+	case "plus-leading-zero":
+		return "+0" + d
+	case "hex":
+		return fmt.Sprintf("0x%x", p)
+	case "hex-upper":
+		return fmt.Sprintf("0X%X", p)
+	case "octal-o":
+		return fmt.Sprintf("0o%o", p)
+	case "binary":
+		return fmt.Sprintf("0b%b", p)
+	case "underscore":
+		return d[:len(d)/2] + "_" + d[len(d)/2:]
+	case "exponent":
+		return d + "e0"
+	case "decimal-point":
+		return d + ".0"
+	case "out-of-range":
+		return d + "00000000000000000000"
+	case "word":
+		return "port"
+	case "double-sign":
+		return "+-" + d
+	}
+	return d
+}
+
+// c20Spellings is the family "run options whose environment values are written in other ways than
+// the plain one": every spelling of every option in each variable on its own (both tiers), plus
+// combinations of a spelled variable with the flag and the other variable (a sample; more in thorough).
+func c20Spellings(nCombos int, rng *rand.Rand) []c20Scenario {
+	var out, combos []c20Scenario
+	for _, opt := range []string{"http-port", "https-port", "debug"} {
+		spells := c20IntSpells
+		flags := []string{"absent", "valid"}
+		if opt == "debug" {
+			spells = c20BoolSpells
+			flags = append(flags, "false")
+		}
+		type choice struct{ kind, spell string }
+		choices := []choice{{"absent", ""}, {"valid", ""}, {"malformed", ""}}
+		for _, sp := range spells {
+			out = append(out, c20Scenario{Part: "run-option-spelling", Opt: opt, Flag: "absent", Pref: sp.Kind, PrefSpell: sp.Name, Bare: "absent"})
+			out = append(out, c20Scenario{Part: "run-option-spelling", Opt: opt, Flag: "absent", Pref: "absent", Bare: sp.Kind, BareSpell: sp.Name})
+			choices = append(choices, choice{sp.Kind, sp.Name})
+		}
+		for _, f := range flags {
+			for _, p := range choices {
+				for _, b := range choices {
+					if p.spell == "" && b.spell == "" {
+						continue // the plain table is the run-option part
+					}
+					if f == "absent" && (p.kind == "absent" || b.kind == "absent") {
+						continue // above
+					}
+					combos = append(combos, c20Scenario{Part: "run-option-spelling", Opt: opt, Flag: f, Pref: p.kind, PrefSpell: p.spell, Bare: b.kind, BareSpell: b.spell})
+				}
+			}
+		}
+	}
+	rng.Shuffle(len(combos), func(i, j int) { combos[i], combos[j] = combos[j], combos[i] })
+	if nCombos < len(combos) {
+		combos = combos[:nCombos]
+	}
+	return append(out, combos...)
+}
 
 func c20All(thorough bool, rng *rand.Rand) []c20Scenario {
 	var out []c20Scenario
@@ -122,6 +223,12 @@ func c20All(thorough bool, rng *rand.Rand) []c20Scenario {
 	for i := 0; i < nl; i++ {
 		out = append(out, c20Scenario{Part: "list", Case: fmt.Sprint(i)})
 	}
+	// appended after the other parts so that their indices (replays) stay what they were
+	nc := 40
+	if thorough {
+		nc = 600
+	}
+	out = append(out, c20Spellings(nc, rng)...)
 	for i := range out {
 		out[i].Idx = i
 	}
@@ -143,7 +250,7 @@ func TestC20(t *testing.T) {
 		}
 		run.Eval()
 		switch sc.Part {
-		case "run-option":
+		case "run-option", "run-option-spelling":
 			c20RunOption(t, run, bin, sc)
 		case "deploy-validation":
 			c20Validation(t, run, bin, sc)
@@ -191,7 +298,13 @@ func c20RunOptionOnce(t *testing.T, run *Run, bin string, sc c20Scenario, last b
 	case "debug":
 		args = append(args, "--http-port", fmt.Sprint(other), "--https-port", fmt.Sprint(freePort()))
 	}
-	val := func(kind string, port int, truth string) (string, bool) {
+	val := func(kind, spell string, port int, truth string) (string, bool) {
+		if spell != "" && kind != "absent" {
+			if isBool {
+				return spell, true
+			}
+			return c20SpellInt(spell, port), true
+		}
 		switch kind {
 		case "valid":
 			if isBool {
@@ -215,7 +328,7 @@ func c20RunOptionOnce(t *testing.T, run *Run, bin string, sc c20Scenario, last b
 		wantDebug = false
 	case sc.Pref == "valid":
 		wantPort, wantDebug = pPref, true
-	case sc.Pref == "malformed":
+	case sc.Pref == "malformed", sc.Pref == "valid-false":
 	case sc.Bare == "valid":
 		wantPort, wantDebug = pBare, true
 	}
@@ -230,11 +343,28 @@ func c20RunOptionOnce(t *testing.T, run *Run, bin string, sc c20Scenario, last b
 		args = append(args, "--debug=false")
 	}
 	// for the boolean the environment carries the opposite of the flag so that precedence shows
-	if v, ok := val(sc.Pref, pPref, "true"); ok {
+	prefVal, bareVal := "(unset)", "(unset)"
+	if v, ok := val(sc.Pref, sc.PrefSpell, pPref, "true"); ok {
 		env = append(env, "KAMAL_PROXY_"+name+"="+v)
+		prefVal = strconv.Quote(v)
 	}
-	if v, ok := val(sc.Bare, pBare, "1"); ok {
+	if v, ok := val(sc.Bare, sc.BareSpell, pBare, "1"); ok {
 		env = append(env, name+"="+v)
+		bareVal = strconv.Quote(v)
+	}
+	// the spelled variable that decides the case (none for the plain table)
+	spelled := ""
+	switch {
+	case sc.Part != "run-option-spelling":
+	case sc.Flag != "absent":
+		spelled = ":flag-over-spelled-env"
+	case sc.Pref != "absent":
+		spelled = ":prefixed:" + sc.Pref + ":" + sc.PrefSpell
+		if sc.PrefSpell == "" {
+			spelled = ":prefixed:" + sc.Pref + ":plain-over-spelled-bare"
+		}
+	default:
+		spelled = ":bare:" + sc.Bare + ":" + sc.BareSpell
 	}
 	cmd := exec.Command(bin, args...)
 	cmd.Env = env
@@ -287,6 +417,9 @@ func c20RunOptionOnce(t *testing.T, run *Run, bin string, sc c20Scenario, last b
 	}
 	text := out.String()
 	class := fmt.Sprintf("run|%s|flag=%s|pref=%s|bare=%s", sc.Opt, sc.Flag, sc.Pref, sc.Bare)
+	if sc.Part == "run-option-spelling" {
+		class = fmt.Sprintf("run-spelling|%s|flag=%s|pref=%s:%s|bare=%s:%s", sc.Opt, sc.Flag, sc.Pref, sc.PrefSpell, sc.Bare, sc.BareSpell)
+	}
 	if isBool {
 		if !started {
 			if last {
@@ -296,6 +429,10 @@ func c20RunOptionOnce(t *testing.T, run *Run, bin string, sc c20Scenario, last b
 		}
 		gotDebug := strings.Contains(text, `"level":"DEBUG"`) && strings.Contains(text, "Saved state")
 		if gotDebug != wantDebug {
+			if spelled != "" {
+				fail("run-option:debug"+spelled, "debug: flag=%s KAMAL_PROXY_DEBUG=%s (%s) DEBUG=%s (%s) -> debug records present=%v, expected %v", sc.Flag, prefVal, sc.Pref, bareVal, sc.Bare, gotDebug, wantDebug)
+				return true
+			}
 			fail("run-option:debug", "debug: flag=%s KAMAL_PROXY_DEBUG=%s DEBUG=%s -> debug records present=%v, expected %v", sc.Flag, sc.Pref, sc.Bare, gotDebug, wantDebug)
 			return true
 		}
@@ -334,11 +471,15 @@ func c20RunOptionOnce(t *testing.T, run *Run, bin string, sc c20Scenario, last b
 		if !started && !last {
 			return false // decided from a bind error only: confirm with fresh ports first
 		}
+		if spelled != "" {
+			fail("run-option:"+sc.Opt+spelled, "%s: flag=%s KAMAL_PROXY_%s=%s (%s) %s=%s (%s) -> effective port %d, expected %d", sc.Opt, sc.Flag, name, prefVal, sc.Pref, name, bareVal, sc.Bare, got, wantPort)
+			return true
+		}
 		fail("run-option:"+sc.Opt, "%s: flag=%s KAMAL_PROXY_%s=%s %s=%s -> effective port %d, expected %d", sc.Opt, sc.Flag, name, sc.Pref, name, sc.Bare, got, wantPort)
 		return true
 	}
 	run.Class(class)
-	run.Sample(map[string]any{"part": "run-option", "option": sc.Opt, "flag": sc.Flag, "prefixed": sc.Pref, "bare": sc.Bare, "effective": got})
+	run.Sample(map[string]any{"part": sc.Part, "option": sc.Opt, "flag": sc.Flag, "prefixed": sc.Pref, "bare": sc.Bare, "prefixed_value": prefVal, "bare_value": bareVal, "effective": got})
 	return true
 }
 
